@@ -15,7 +15,7 @@ META = dict(
     functions=["Bf3File.read_file", "Bf3File.from_binary", "Bf3File.dir_from_binary", "BytesReader.read/read_int/eof/ensure_eof", "bf3file.cmac", "AES128Proxy.mac"],
     stubs=["S-io", "S-cbc", "S-mac-ideal", "text-layer bypass"],
     assumptions=["A1/A2 ideal MAC", "declared length >= 1 (the object model cannot represent 0)"],
-    bounds=dict(quick="skeletons: 1 component (5-byte payload, 1 tag of 2 bytes) and 2 components (3 bytes/1 tag + 4 bytes/2 tags); one edited field at a time over its full value range: every field of the 1-component skeleton (tag ids over 11 boundary values, tag-list fields with concrete tag values) and the address/length/index fields of the 2-component skeleton; structural edits: swap entries, duplicate tag, 1-2 trailing bytes", thorough="every pair of fields of the 1-component skeleton and of the first entry of the 2-component skeleton"),
+    bounds=dict(quick="skeletons: 1 component (5-byte payload, 1 tag of 2 bytes) and 2 components (3 bytes/1 tag + 4 bytes/2 tags); one edited field at a time over its full value range: every field of the 1-component skeleton (tag ids over 11 boundary values, tag-list fields with concrete tag values) and the address/length/index fields of the 2-component skeleton; structural edits: swap entries, duplicate tag, 1-2 trailing bytes", thorough="+ every single field of the 2-component skeleton incl. tag ids over their full range, directory size and entry length; pairs of fields edited together: all pairs among directory size, entry length, address, stored/declared length, description length, tag length of the 1-component skeleton (except entry/description length with a tag length: not confirmed within an hour) and address x stored x declared length of the first entry of the 2-component skeleton; 65 jobs, about 55 min on 16 cores"),
     outside=["three or more simultaneously edited fields", "unstructured binaries", "encrypted components (C06)"],
 )
 
@@ -67,7 +67,8 @@ def jobs(tier, seed):
         F1 = all_fields("one")
         key1 = [f for f in F1 if any(k in f for k in ("len", "adr", "total", "actual", "size"))]
         for a, b in itertools.combinations(F1, 2):
-            if a in key1 and b in key1:
+            if a in key1 and b in key1 and not ("tag_len0" in b and a.split("@")[0] in ("entry_len", "desc_len")):
+                # (entry_len / desc_len together with a tag length: 37 min resp. not confirmed within 56 min - outside the tier)
                 J.append(dict(name="pair:one:%s+%s" % (a, b), kind="fields", skel="one", fields=[a, b], tier=tier, timeout=3400, cost=600))
         F2 = [f for f in all_fields("two") if f.endswith("@0") or "@" not in f]
         key2 = [f for f in F2 if any(k in f for k in ("total", "actual", "adr"))]
